@@ -37,6 +37,9 @@ var literalPool = []string{
 	"5e-324", "1e-400", "9007199254740993", "123456789012345678", "-122.44154334068298", "37.73179457567642",
 	"179.99999999999997", "180", "-180", "90", "-90", "180.00000001", "-90.5", "1.0", "1.50", "3.141592653589793", "0.000001",
 	"4.9406564584124654e-324", "2.2250738585072014e-308", "1e21", "1e-7", "123456789.12345678",
+	// whole numbers around the edges of the 64-bit integers, and the largest double
+	"9223372036854775807", "9223372036854775808", "-9223372036854775808", "-9223372036854775809", "9300000000000000000", "18446744073709551616",
+	"-1.7976931348623157e308",
 }
 
 var overflowPool = []string{"1e999", "-1e999", "1e309", "-1.8e308"}
@@ -440,7 +443,13 @@ func (g *gen) object(depth int, feature bool) string {
 	}
 	members := []string{typeKey + g.ws() + ":" + g.ws() + typeVal}
 	if !g.mutate("dropreq") {
-		members = append(members, `"`+reqKey+`"`+g.ws()+":"+g.ws()+reqVal)
+		rk := reqKey
+		if g.o.Noise && rapid.IntRange(0, 9).Draw(t, "escreq") == 0 {
+			// the same member name written with an escape ("coordinat\u0065s"): still that member
+			i := rapid.IntRange(0, len(rk)-1).Draw(t, "escreqat")
+			rk = rk[:i] + fmt.Sprintf("\\u%04x", rk[i]) + rk[i+1:]
+		}
+		members = append(members, `"`+rk+`"`+g.ws()+":"+g.ws()+reqVal)
 	}
 	if g.mutate("droptype") {
 		members = members[1:]
